@@ -461,7 +461,13 @@ class Circuit:
                 and blk.init_timeout > 0.0]
         if start_tasks:
             self.log_debug("Initializing async sequential blocks")
-            await self._run_tasks("async init", start_tasks)
+            try:
+                await self._run_tasks("async init", start_tasks)
+            finally:
+                # if the initialization was interrupted (simulation cancelled or aborted),
+                # do not leave the remaining init tasks running; a no-op for finished tasks
+                for _blk, task, _timeout in start_tasks:
+                    task.cancel()
 
     @staticmethod
     def init_sblock(blk: block.SBlock, full: bool) -> None:
